@@ -140,79 +140,157 @@ int cp_etrs_sig(bn_t *td, bn_t *y, size_t max, etrs_t p, const uint8_t *msg,
 	return result;
 }
 
-int cp_etrs_ver(size_t thres, const bn_t *td, const bn_t *y, size_t max,
-		const etrs_t *s, size_t size, const uint8_t *msg, size_t len,
-		const ec_t pp) {
-	int i, flag = 0, result = 0;
-	bn_t l, n, u;
-	ec_t w[2];
-
-	int d = max + size - thres;
+/**
+ * Evaluates at x the polynomial (in the exponent) that interpolates the first
+ * d points (ys[i], ts[i]). Returns 0 if the nodes are not pairwise distinct
+ * modulo the group order, 1 otherwise.
+ */
+static int etrs_interp(ec_t w, const bn_t *ys, const ec_t *ts, int d,
+		const bn_t x, const bn_t n) {
+	int result = 1;
+	bn_t u;
 	bn_t *v = RLC_ALLOCA(bn_t, d);
 	bn_t *_v = RLC_ALLOCA(bn_t, d);
-	bn_t *_y = RLC_ALLOCA(bn_t, d);
-	ec_t *_t = RLC_ALLOCA(ec_t, d);
 
-	bn_null(l);
-	bn_null(n);
 	bn_null(u);
-	ec_null(w[0]);
-	ec_null(w[1]);
 
 	RLC_TRY {
-		bn_new(l);
-		bn_new(n);
 		bn_new(u);
-		ec_new(w[0]);
-		ec_new(w[1]);
-		if (_y == NULL || _t == NULL || v == NULL) {
+		if (v == NULL || _v == NULL) {
 			RLC_THROW(ERR_NO_MEMORY);
 		}
-		for (i = 0; i < d; i++) {
+		for (int i = 0; i < d; i++) {
 			bn_null(v[i]);
 			bn_null(_v[i]);
 			bn_new(v[i]);
 			bn_new(_v[i]);
-			bn_new(_y[i]);
-			ec_new(_t[i]);
 		}
-
-		for (i = 0; i < max; i++) {
-			bn_copy(_y[i], y[i]);
-			ec_mul_gen(_t[i], td[i]);
-		}
-		for (; i < d; i++) {
-			bn_copy(_y[i], s[i - max]->y);
-			ec_copy(_t[i], s[i - max]->h);
-		}
-
-		ec_curve_get_ord(n);
-
-		flag = 1;
-		ec_set_infty(w[0]);
-		for (i = 0; i < d; i++) {
+		for (int i = 0; i < d && result; i++) {
 			for (int j = 0; j < d; j++) {
 				bn_set_dig(_v[j], 1);
 				if (j != i) {
-					bn_sub(_v[j], _y[j], _y[i]);
+					bn_sub(_v[j], ys[j], ys[i]);
 					bn_mod(_v[j], _v[j], n);
+					if (bn_is_zero(_v[j])) {
+						result = 0;
+					}
 				}
+			}
+			if (!result) {
+				break;
 			}
 			bn_mod_inv_sim(_v, _v, n, d);
 			bn_set_dig(v[i], 1);
 			for (int j = 0; j < d; j++) {
 				if (j != i) {
-					bn_mul(u, _y[j], _v[j]);
+					/* (y_j - x) / (y_j - y_i). */
+					bn_sub(u, ys[j], x);
+					bn_mod(u, u, n);
+					bn_mul(u, u, _v[j]);
 					bn_mod(u, u, n);
 					bn_mul(v[i], v[i], u);
 					bn_mod(v[i], v[i], n);
 				}
 			}
 		}
-		ec_mul_sim_lot(w[0], _t, v, d);
-		flag &= ec_cmp(w[0], pp) != RLC_EQ;
+		if (result) {
+			ec_mul_sim_lot(w, ts, v, d);
+		}
+	}
+	RLC_CATCH_ANY {
+		RLC_THROW(ERR_CAUGHT);
+	}
+	RLC_FINALLY {
+		bn_free(u);
+		for (int i = 0; i < d; i++) {
+			bn_free(v[i]);
+			bn_free(_v[i]);
+		}
+		RLC_FREE(v);
+		RLC_FREE(_v);
+	}
+	return result;
+}
 
-		for (int i = 0; i < size; i++) {
+int cp_etrs_ver(size_t thres, const bn_t *td, const bn_t *y, size_t max,
+		const etrs_t *s, size_t size, const uint8_t *msg, size_t len,
+		const ec_t pp) {
+	int i, flag = 0, result = 0;
+	bn_t n, z;
+	ec_t w[2];
+
+	/* There are max + size points; together with (0, pp) they must lie on a
+	 * polynomial of degree max + size - thres, which d points determine. */
+	int t = max + size;
+	int d = t - thres + 1;
+
+	if (thres < 1 || thres > size) {
+		return 0;
+	}
+
+	bn_t *_y = RLC_ALLOCA(bn_t, t);
+	ec_t *_t = RLC_ALLOCA(ec_t, t);
+
+	bn_null(n);
+	bn_null(z);
+	ec_null(w[0]);
+	ec_null(w[1]);
+
+	RLC_TRY {
+		bn_new(n);
+		bn_new(z);
+		ec_new(w[0]);
+		ec_new(w[1]);
+		if (_y == NULL || _t == NULL) {
+			RLC_THROW(ERR_NO_MEMORY);
+		}
+		for (i = 0; i < t; i++) {
+			bn_null(_y[i]);
+			ec_null(_t[i]);
+			bn_new(_y[i]);
+			ec_new(_t[i]);
+		}
+
+		ec_curve_get_ord(n);
+		bn_zero(z);
+
+		flag = 1;
+		for (i = 0; i < (int)max; i++) {
+			if (bn_sign(td[i]) == RLC_NEG || bn_cmp(td[i], n) != RLC_LT) {
+				flag = 0;
+			}
+			bn_copy(_y[i], y[i]);
+			ec_mul_gen(_t[i], td[i]);
+		}
+		for (; i < t; i++) {
+			bn_copy(_y[i], s[i - max]->y);
+			ec_copy(_t[i], s[i - max]->h);
+		}
+		for (i = 0; i < t; i++) {
+			/* Evaluation points are non-zero residues. */
+			if (bn_sign(_y[i]) == RLC_NEG || bn_is_zero(_y[i]) ||
+					bn_cmp(_y[i], n) != RLC_LT) {
+				flag = 0;
+			}
+		}
+
+		if (flag) {
+			/* The first d points must interpolate to pp at zero... */
+			flag &= etrs_interp(w[0], (const bn_t *)_y, (const ec_t *)_t, d, z, n);
+			flag &= (flag && ec_cmp(w[0], pp) == RLC_EQ);
+			/* ... and every remaining point must lie on the same polynomial. */
+			for (i = d; i < t && flag; i++) {
+				flag &= etrs_interp(w[0], (const bn_t *)_y, (const ec_t *)_t, d, _y[i], n);
+				flag &= (flag && ec_cmp(w[0], _t[i]) == RLC_EQ);
+			}
+			/* The threshold is exact: one point less must not suffice. */
+			if (flag && d > 1) {
+				flag &= etrs_interp(w[0], (const bn_t *)_y, (const ec_t *)_t, d - 1, z, n);
+				flag &= (flag && ec_cmp(w[0], pp) != RLC_EQ);
+			}
+		}
+
+		for (i = 0; i < (int)size && flag; i++) {
 			ec_copy(w[0], s[i]->h);
 			ec_copy(w[1], s[i]->pk);
 			flag &= cp_sokor_ver(s[i]->c, s[i]->r, msg, len, w, NULL);
@@ -223,19 +301,14 @@ int cp_etrs_ver(size_t thres, const bn_t *td, const bn_t *y, size_t max,
 		RLC_THROW(ERR_CAUGHT);
 	}
 	RLC_FINALLY {
-		bn_free(l);
 		bn_free(n);
-		bn_free(u);
+		bn_free(z);
 		ec_free(w[0]);
 		ec_free(w[1]);
-		for (int i = 0; i < d; i++) {
-			bn_free(v[i]);
-			bn_free(_v[i]);
+		for (i = 0; i < t; i++) {
 			bn_free(_y[i]);
 			ec_free(_t[i]);
 		}
-		RLC_FREE(v);
-		RLC_FREE(_v);
 		RLC_FREE(_y);
 		RLC_FREE(_t);
 	}
